@@ -85,6 +85,9 @@ BarSplitClauses(r) ==
           <<"sound-exact-without-requantisation", ~r.qnl => \A i \in 1 .. n : barSound(i) = srcSound(i)>>,
           <<"sound-subset-with-requantisation", r.qnl => \A i \in 1 .. n : barSound(i) \subseteq srcSound(i)>>,
           <<"uncut-notes-intact", r.qnl => \A i \in 1 .. n : \A x \in uncut(i) : \A t \in x.s .. (x.e - 1) : <<x.ch, x.p, t>> \in barSound(i)>>,
+          (* C06 through this entry point: with re-quantisation every note of every bar has an allowed (default) duration *)
+          <<"requantised-durations-allowed", r.qnl => \A i \in 1 .. n : \A k \in 1 .. Len(r.bars[i]) :
+                 \A x \in Notes(RelEvents(r.bars[i][k].rel)) : (x.e - x.s) \in DefaultNoteValues>>,
           <<"bars-closed", \A i \in 1 .. n : \A k \in 1 .. Len(r.bars[i]) : Alternates(RelEvents(r.bars[i][k].rel))>>,
           <<"inputs-unchanged", r.tracksAfter = r.tracks /\ r.absAfter = r.absBefore>> >>
 InSplitDomain(r) ==
